@@ -86,23 +86,34 @@ Definition field_strict (C : cfg) (S : schema) (nested : bool) (tn : string) (f 
 (* the strictness guard of a composite field's sub-selection: at a union position it must hold for every
    member type *)
 Definition strict_sub (okb : string -> list sel -> bool) (strict : string -> list sel -> bool)
-           (S : schema) (base : string) (sub : list sel) : bool :=
+           (una : string -> list sel -> bool) (S : schema) (base : string) (sub : list sel) : bool :=
   match lookup_type S base with
   | Some (DUnion ms) => forallb (fun m => strict m sub) ms
   | Some (DInterface _ _) =>
-      (* every type condition names the interface or one of its possible types (F4), every possible type
-         has its own variant class, and the interface itself — whose name the base class's Literal
-         admits as __typename (F8) — is in the sub-language as a runtime type too *)
+      (* every type condition names the interface or one of its possible types (F4); every possible type
+         has its own variant class, or the base class (whose Literal lists the interface and all possible
+         types without a variant) has __typename only under its own key [una]: two differently aliased
+         __typename fields would admit two different names of that Literal; and the interface itself —
+         whose name the base class's Literal admits as __typename (F8) — is in the sub-language as a
+         runtime type too *)
       let names := abs_names S base sub in
       forallb (fun t => String.eqb t base || mem t (possible_types S base)) names &&
-      forallb (fun s => mem s names) (possible_types S base) &&
+      (forallb (fun s => mem s names) (possible_types S base) || una base sub) &&
       okb base sub && strict base sub &&
       forallb (fun s => strict s sub) (possible_types S base)
   | _ => strict base sub
   end.
 
-Fixpoint sels_strict (fuel : nat) (C : cfg) (S : schema) (frs : list fragdef) (nested : bool) (tn : string)
-         (sels : list sel) : bool :=
+(* every __typename of the class generated for r is selected without alias *)
+Definition una_ok (g : nat) (S : schema) (frs : list fragdef) (r : string) (sels : list sel) : bool :=
+  match flatten g S frs r r sels with
+  | Some fns => forallb (fun f => negb (String.eqb (fn_name f) "__typename") ||
+                                  match fn_alias f with None => true | Some _ => false end) fns
+  | None => false
+  end.
+
+Fixpoint sels_strict (fuel : nat) (C : cfg) (S : schema) (frs : list fragdef) (mx : list string)
+         (nested : bool) (tn : string) (sels : list sel) : bool :=
   match fuel with
   | O => false
   | Datatypes.S g =>
@@ -111,8 +122,8 @@ Fixpoint sels_strict (fuel : nat) (C : cfg) (S : schema) (frs : list fragdef) (n
           forallb (fun f =>
             field_strict C S nested tn f &&
             match fn_sub f, schema_field_type S tn (fn_name f) with
-            | Some sub, Ok t => strict_sub (fun b sb => sels_ok g true C S frs true b b sb)
-                                           (sels_strict g C S frs true) S (base_name t) sub
+            | Some sub, Ok t => strict_sub (fun b sb => sels_ok g true C S frs mx true b b sb)
+                                           (sels_strict g C S frs mx true) (una_ok g S frs) S (base_name t) sub
             | _, _ => true
             end) fns
       | None => false
@@ -207,6 +218,26 @@ Proof.
   destruct (image_opt leaf t img Hn Hi) as [x Hx]. subst. reflexivity.
 Qed.
 
+(* the typename literals of the classes at an interface position *)
+Lemma tv_interface_shape S base sub rel ifs fs :
+  lookup_type S base = Some (DInterface ifs fs) ->
+  map r_type rel = abs_names S base sub ->
+  (forall t, t <> base -> typename_values S rel t = [t]) /\
+  typename_values S rel base =
+    base :: filter (fun p => negb (mem p (abs_names S base sub))) (dedup (possible_types S base)).
+Proof.
+  intros Hl Hrel.
+  assert (Hhead : exists tl, abs_names S base sub = base :: tl).
+  { unfold abs_names. rewrite Hl. destruct (inline_tcs sub); eauto. }
+  destruct Hhead as [tl Hn].
+  assert (Hfirst : find (fun n => match lookup_type S n with Some d => is_abstract d | None => false end)
+                        (abs_names S base sub) = Some base) by (rewrite Hn; simpl; rewrite Hl; reflexivity).
+  split.
+  - intros t Ht. unfold typename_values. rewrite Hrel, Hfirst.
+    rewrite (eqb_neq_false base t) by congruence. reflexivity.
+  - unfold typename_values. rewrite Hrel, Hfirst, String.eqb_refl. reflexivity.
+Qed.
+
 Section LevelS.
   Variables (C : cfg) (S : schema) (frs : list fragdef).
   Variables (fuel' g : nat) (cs : list pclass).
@@ -216,6 +247,10 @@ Section LevelS.
   (* ok2: the same guard as computed inside the strictness guard (for the interface's own name) *)
   Variable ok2 : bool -> string -> string -> list sel -> bool.
   Variable strict : string -> list sel -> bool.
+  Variable una : string -> list sel -> bool.
+  Variable mx : list string.
+  Variable harm : list string -> Prop.
+  Hypothesis harm_mx : forall eb, forallb (fun b => mem b mx) eb = true -> harm eb.
   Hypothesis W_opt : forall a j, W (AOpt a) j = is_null j || W a j.
   Hypothesis W_list : forall a j, W (AList a) j = match j with JArr l => forallb (W a) l | _ => false end.
   Hypothesis W_scalar : forall n j, j <> JNull -> W (fst (scalar_ann C n false)) j = true ->
@@ -223,55 +258,66 @@ Section LevelS.
   Hypothesis W_scalar_null : forall n, configured C n = true -> W (fst (scalar_ann C n false)) JNull = false.
   Hypothesis W_enum : forall n vs j, lookup_type S n = Some (DEnum vs) -> W (AEnum n) j = true ->
                                      leaf_conf S n (DEnum vs) j = true.
-  Hypothesis W_lit : forall tn v, W (ALit [tn]) v = true -> v = JStr tn.
+  Hypothesis W_lit : forall vs v, W (ALit vs) v = true -> exists s, v = JStr s /\ In s vs.
   Hypothesis W_class_obj : forall c j, W (AClass c) j = true -> exists kv, j = JObj kv.
   (* union positions: the checker discriminates on __typename with the field table mro *)
   Variable mro : string -> option (list pfield).
   Hypothesis W_uni : forall alts j, W (AUnion alts) j = true ->
       exists kv s c, j = JObj kv /\ jlookup "__typename" kv = Some (JStr s) /\
                      union_pick mro alts s = Some (AClass c) /\ W (AClass c) j = true.
-  Hypothesis mro_det : forall c fs, lookup_class cs (c_name c) = Some c -> c_name c <> "BaseModel" ->
-      c_bases c = ["BaseModel"] -> mro (c_name c) = Some fs -> fs = c_fields c.
+  Hypothesis mro_det : forall c eb fs, lookup_class cs (c_name c) = Some c -> c_name c <> "BaseModel" ->
+      c_bases c = "BaseModel" :: eb -> harm eb -> mro (c_name c) = Some fs -> fs = c_fields c.
   Hypothesis fuel_pos : exists f2, fuel' = Datatypes.S f2.
-  Hypothesis W_class : forall pub cn2 tn2 sels2 at2 out2 pub2 kv,
-      parse_type_def fuel' C S frs pub cn2 tn2 sels2 at2 [] (Some [tn2]) = Ok (out2, pub2, false) ->
-      (ok at2 tn2 tn2 sels2 = true \/ ok2 at2 tn2 tn2 sels2 = true) -> strict tn2 sels2 = true ->
+  (* the class generated for r2 with typename literal tvs2: the runtime type is one of tvs2 *)
+  Hypothesis W_class : forall pub cn2 r2 sels2 at2 eb2 tvs2 out2 pub2 kv, harm eb2 ->
+      parse_type_def fuel' C S frs pub cn2 r2 sels2 at2 eb2 (Some tvs2) = Ok (out2, pub2, false) ->
+      tvs2 <> [] ->
+      (forall rt2, In rt2 tvs2 -> ok at2 rt2 r2 sels2 = true \/ ok2 at2 rt2 r2 sels2 = true) ->
+      strict r2 sels2 = true ->
+      (tvs2 = [r2] \/ (at2 = true /\ una r2 sels2 = true)) ->
       (at2 = true -> has_typename sels2 = true) ->
       table_ok cs out2 -> W (AClass cn2) (JObj kv) = true ->
-      ev (fun fc => obj_lconf fc S frs tn2 sels2 kv).
+      exists rt2, In rt2 tvs2 /\ ev (fun fc => obj_lconf fc S frs rt2 sels2 kv).
 
-  Definition value_lconf (tn : string) (f : fnode) (v : json) : Prop :=
-    if String.eqb (fn_name f) "__typename" then v = JStr tn
+  Definition value_lconf (tvs : list string) (tn : string) (f : fnode) (v : json) : Prop :=
+    if String.eqb (fn_name f) "__typename" then exists s, v = JStr s /\ In s tvs
     else exists ft, field_type_on S tn (fn_name f) = Some ft /\
                     ev (fun fc => lconf fc S frs ft (sub_scopes [node_of_fnode false f]) v).
 
   Definition sub_strict (tn : string) (f : fnode) : bool :=
     match fn_sub f, schema_field_type S tn (fn_name f) with
-    | Some sub, Ok t => strict_sub (fun b sb => ok2 true b b sb) strict S (base_name t) sub
+    | Some sub, Ok t => strict_sub (fun b sb => ok2 true b b sb) strict una S (base_name t) sub
     | _, _ => true
     end.
 
-  Lemma field_value_rev cn tn tv nested at_ f pf ctx pub0 exc pub1 v :
-    field_ok ok g true S at_ tn tn f = true ->
+  Lemma field_value_rev cn rt tn tv tvs nested at_ f pf ctx pub0 exc pub1 v :
+    field_ok ok g true S mx at_ rt tn f = true ->
     field_strict C S nested tn f = true -> sub_strict tn f = true ->
-    tv = (if nested then Some [tn] else None) ->
+    tv = (if nested then Some tvs else None) -> tvs <> [] ->
     field_pf C S frs fuel' cn tn tv at_ f = Ok (pf, ctx) ->
     parse_subs (parse_type_def fuel' C S frs) S ctx f pub0 = Ok (exc, pub1, false) ->
-    table_ok cs exc -> W (p_ann pf) v = true -> value_lconf tn f v.
+    table_ok cs exc -> W (p_ann pf) v = true -> value_lconf tvs rt f v.
   Proof.
-    intros Hok Hst Hss Htv Hpf Hsub Htab Hw.
+    intros Hok Hst Hss Htv Htvs Hpf Hsub Htab Hw.
     destruct (field_pf_inv _ _ _ _ _ _ _ _ _ _ _ Hpf) as [t [a0 [il [Ht [Ha Hpf']]]]]. subst pf.
     cbn [p_ann mk_pfield] in Hw.
     unfold field_ok in Hok. apply andb_true_iff in Hok as [Hmix Hok].
-    destruct (fn_mixins f) eqn:Emix; [| discriminate]. clear Hmix.
+    pose proof (harm_mx _ Hmix) as Hharm. clear Hmix.
     unfold value_lconf. unfold field_strict in Hst.
     destruct (String.eqb (fn_name f) "__typename") eqn:Etn.
     - apply andb_true_iff in Hst as [Hnest Hnc]. apply negb_true_iff in Hnc.
-      subst nested tv. unfold field_ann_lit in Ha. rewrite Etn in Ha. simpl in Ha. inversion Ha; subst.
-      unfold cond_ann in Hw. rewrite Hnc in Hw. apply W_lit. destruct (true && at_); exact Hw.
+      subst nested tv. destruct tvs as [|v0 vs]; [congruence|].
+      unfold field_ann_lit in Ha. rewrite Etn in Ha. simpl in Ha. inversion Ha; subst.
+      unfold cond_ann in Hw. rewrite Hnc in Hw.
+      assert (Hw' : W (ALit (sort_strings (v0 :: vs))) v = true) by (destruct (true && at_); exact Hw).
+      destruct (W_lit _ _ Hw') as [s [Es Hs]]. exists s. split; [exact Es | apply sort_strings_In, Hs].
     - assert (Hne : fn_name f <> "__typename") by (apply String.eqb_neq, Etn).
-      rewrite Ht in Hok, Hst. apply andb_true_iff in Hok as [Hwf Hok]. apply andb_true_iff in Hwf as [Hwf _].
+      rewrite Ht in Hok, Hst. apply andb_true_iff in Hok as [Hwf Hok]. apply andb_true_iff in Hwf as [Hwf Hagree].
       apply andb_true_iff in Hst as [Hcn Hcfg].
+      assert (Hrt : schema_field_type S rt (fn_name f) = Ok t).
+      { destruct (schema_field_type S rt (fn_name f)) as [t'|]; [| discriminate Hagree].
+        apply gtype_eqb_eq in Hagree. congruence. }
+      clear Hagree.
       exists t. split; [apply field_type_on_schema; auto|].
       set (sc := cn +++ pascal_s (py_field_name C (field_key f))) in *.
       assert (Ha' : exists r, field_type_ann C S frs fuel' (fn_sub f) t true sc false = Ok r /\
@@ -335,13 +381,15 @@ Section LevelS.
         inversion Hrun as [| rc rcs pb qc qp qs cls pb' sk Hq Hrest]; subst.
         inversion Hrest; subst. simpl in Hq.
         match goal with H : _ || _ = false |- _ => apply orb_false_elim in H as [Hqs _] end. subst qs.
-        rewrite Emix in Hq.
         rewrite (typename_values_object S _ (base_name t)) in Hq;
           [| unfold is_object; rewrite El; reflexivity | reflexivity].
         unfold strict_sub in Hss. rewrite El in Hss.
         assert (He : ev (fun fc => obj_lconf fc S frs (base_name t) sub kv')).
-        { eapply (W_class _ _ _ _ false); eauto; [discriminate|].
-          eapply table_ok_incl; [exact Htab|]. rewrite app_nil_r. apply incl_refl. }
+        { edestruct (W_class pub0 sc (base_name t) sub false (fn_mixins f) [base_name t]) as [rt2 [Hin2 He2]];
+            [exact Hharm | exact Hq | discriminate | | exact Hss | left; reflexivity | discriminate | | exact Hwx |].
+          - intros rt2 [E | []]. subst rt2. left. exact Hok.
+          - eapply table_ok_incl; [exact Htab|]. rewrite app_nil_r. apply incl_refl.
+          - destruct Hin2 as [E | []]. subst rt2. exact He2. }
         apply ev_shift in He. destruct He as [a Ha]. exists a. intros [|k] Hk; [specialize (Ha 0 Hk); discriminate|].
         specialize (Ha _ Hk). cbn [conf_val_gen]. rewrite El.
         unfold sub_scopes. simpl. rewrite Esub. simpl. rewrite andb_false_r. exact Ha.
@@ -368,26 +416,52 @@ Section LevelS.
         (* the class of a related type t0 validated the object => lax conformance for runtime type t0 *)
         assert (Hfin : forall kv' cn0 t0, In {| r_class := cn0; r_type := t0 |} (x_related (snd r)) ->
                   x_abstract (snd r) = true ->
-                  typename_values S (x_related (snd r)) t0 = [t0] ->
-                  t0 = base \/ In t0 (possible_types S base) ->
+                  map r_type (x_related (snd r)) = names ->
+                  t0 = base \/ (In t0 (possible_types S base) /\ mem t0 names = true) ->
                   W (AClass cn0) (JObj kv') = true ->
                   ev (fun fc => conf_val_gen lax_leaf false true fc S frs (TNamed base)
                                              (sub_scopes [node_of_fnode false f]) (JObj kv'))).
-        { intros kv' cn0 t0 Hrc Hab Htv0 Ht0 Hwc.
+        { intros kv' cn0 t0 Hrc Hab Hrel Ht0 Hwc.
           destruct (subs_run_each _ _ _ _ _ _ _ _ _ _ Hrun eq_refl _ Hrc) as [pa [qc [qp [Hq Hi]]]].
-          simpl in Hq. rewrite Hab, Emix, Htv0 in Hq.
-          assert (Hokt : ok true t0 t0 sub = true \/ ok2 true t0 t0 sub = true).
-          { destruct Ht0 as [E | Hin]; [subst t0; right; exact Hokb | left].
-            rewrite forallb_forall in Hall, Hallv. destruct (andb_prop _ _ (Hall t0 Hin)) as [_ Hv].
-            fold names in Hv. unfold variant in Hv. rewrite (Hallv t0 Hin) in Hv. exact Hv. }
+          simpl in Hq. rewrite Hab in Hq.
+          destruct (tv_interface_shape S base sub (x_related (snd r)) ifs fs El Hrel) as [Hnonbase Hbase].
+          fold names in Hbase.
+          set (tvs0 := typename_values S (x_related (snd r)) t0) in *.
+          assert (Hmem : forall s, In s tvs0 -> s = t0 \/ (t0 = base /\ In s (possible_types S base) /\
+                                                           mem s names = false)).
+          { intros s Hs. destruct (String.eqb t0 base) eqn:Eb.
+            - apply String.eqb_eq in Eb. unfold tvs0 in Hs. rewrite Eb, Hbase in Hs.
+              destruct Hs as [Hs | Hs]; [left; congruence | right].
+              apply filter_In in Hs. destruct Hs as [Hs1 Hs2]. apply (proj1 (dedup_In _ _)) in Hs1.
+              apply negb_true_iff in Hs2. split; [exact Eb | split; [exact Hs1 | exact Hs2]].
+            - apply String.eqb_neq in Eb. unfold tvs0 in Hs. rewrite (Hnonbase t0 Eb) in Hs.
+              destruct Hs as [Hs | []]. left. auto. }
           assert (Hstt : strict t0 sub = true).
-          { destruct Ht0 as [E | Hin]; [subst t0; exact Hsb|]. rewrite forallb_forall in Hsp. apply Hsp, Hin. }
-          assert (He : ev (fun fc => obj_lconf fc S frs t0 sub kv')).
-          { eapply (W_class pa cn0 t0 sub true); eauto. eapply table_ok_incl; eauto. }
-          apply ev_shift in He. destruct He as [a Ha]. exists a. intros [|k] Hk; [specialize (Ha 0 Hk); discriminate|].
-          specialize (Ha _ Hk). cbn [conf_val_gen]. rewrite El. apply existsb_exists. exists t0.
-          split; [apply Hcand, Ht0|].
-          unfold sub_scopes. simpl. rewrite Esub. simpl. rewrite andb_false_r. exact Ha. }
+          { destruct Ht0 as [E | [Hin _]]; [subst t0; exact Hsb|]. rewrite forallb_forall in Hsp. apply Hsp, Hin. }
+          edestruct (W_class pa cn0 t0 sub true (fn_mixins f) tvs0) as [rt2 [Hin2 He]];
+            [exact Hharm | exact Hq | | | exact Hstt | | intros _; exact Hht | eapply table_ok_incl; eauto | exact Hwc |].
+          - unfold tvs0. destruct (String.eqb t0 base) eqn:Eb.
+            + apply String.eqb_eq in Eb. rewrite Eb, Hbase. discriminate.
+            + apply String.eqb_neq in Eb. rewrite (Hnonbase t0 Eb). discriminate.
+          - intros rt2 Hr2. rewrite forallb_forall in Hall.
+            destruct (Hmem rt2 Hr2) as [E | [E [Hp Hm]]].
+            + subst rt2. destruct Ht0 as [E | [Hin Hm]]; [subst t0; right; exact Hokb | left].
+              destruct (andb_prop _ _ (Hall t0 Hin)) as [_ Hv].
+              fold names in Hv. unfold variant in Hv. rewrite Hm in Hv. exact Hv.
+            + subst t0. left. destruct (andb_prop _ _ (Hall rt2 Hp)) as [_ Hv].
+              fold names in Hv. unfold variant in Hv. rewrite Hm in Hv. exact Hv.
+          - apply orb_true_iff in Hallv as [Hallv | Hun0].
+            + left. eapply tv_interface_singleton; eauto.
+            + destruct (String.eqb t0 base) eqn:Eb.
+              * apply String.eqb_eq in Eb. subst t0. right. split; [reflexivity | exact Hun0].
+              * apply String.eqb_neq in Eb. left. apply Hnonbase, Eb.
+          - apply ev_shift in He. destruct He as [a Ha]. exists a.
+            intros [|k] Hk; [specialize (Ha 0 Hk); discriminate|].
+            specialize (Ha _ Hk). cbn [conf_val_gen]. rewrite El. apply existsb_exists. exists rt2.
+            split.
+            + apply Hcand. destruct (Hmem rt2 Hin2) as [E | [_ [Hp _]]]; [| right; exact Hp].
+              subst rt2. destruct Ht0 as [E | [Hin _]]; auto.
+            + unfold sub_scopes. simpl. rewrite Esub. simpl. rewrite andb_false_r. exact Ha. }
         destruct (named_ann_interface _ _ _ _ _ _ _ _ _ _ _ El (no_spread_top _ _ Hns) Hsome Hna')
           as [Hab [[Hi [Hx Hrl]] | [Hi [Hx Hrl]]]]; subst x.
         * (* no fragment: one class for the interface itself *)
@@ -395,17 +469,18 @@ Section LevelS.
           assert (En : names = [base]) by (unfold names, abs_names; rewrite El, Hi; reflexivity).
           eapply (Hfin kv' sc base); eauto.
           -- rewrite Hrl. left. reflexivity.
-          -- eapply tv_interface_singleton; eauto. rewrite Hrl. fold names. rewrite En. reflexivity.
+          -- rewrite Hrl, En. reflexivity.
         * destruct (W_uni _ _ Hwx) as [kv' [s0 [c0 [Ej [Hjl [Hpick Hwc]]]]]]. subst j'.
           unfold union_pick in Hpick. apply find_some in Hpick. destruct Hpick as [Hin Hpred].
           apply in_map_iff in Hin. destruct Hin as [t0 [Ec0 Ht0]]. inversion Ec0; subst c0. clear Ec0.
           fold names in Ht0, Hrl.
           assert (Hrc : In (rel_of sc t0) (x_related (snd r))) by (rewrite Hrl; apply in_map, Ht0).
-          assert (Htv0 : typename_values S (x_related (snd r)) t0 = [t0]).
-          { eapply tv_interface_singleton; eauto. rewrite Hrl, map_map. simpl. apply map_id. }
-          assert (Ht0' : t0 = base \/ In t0 (possible_types S base)).
+          assert (Hrel0 : map r_type (x_related (snd r)) = names).
+          { rewrite Hrl, map_map. simpl. apply map_id. }
+          assert (Ht0' : t0 = base \/ (In t0 (possible_types S base) /\ mem t0 names = true)).
           { rewrite forallb_forall in Hnames_ok. specialize (Hnames_ok t0 Ht0).
-            apply orb_true_iff in Hnames_ok as [E | E]; [left; apply String.eqb_eq, E | right; apply mem_In, E]. }
+            apply orb_true_iff in Hnames_ok as [E | E]; [left; apply String.eqb_eq, E | right].
+            split; [apply mem_In, E | apply mem_In, Ht0]. }
           eapply (Hfin kv' (sc +++ t0) t0); eauto.
       + (* union: the discriminator names a member, whose class validated the object *)
         set (base := base_name t) in *.
@@ -426,7 +501,7 @@ Section LevelS.
         apply in_map_iff in Hin. destruct Hin as [t0 [Ec0 Ht0]]. inversion Ec0; subst c0. clear Ec0.
         assert (Hrc : In (rel_of sc t0) (x_related (snd r))) by (rewrite Hrel; apply in_map, Ht0).
         destruct (subs_run_each _ _ _ _ _ _ _ _ _ _ Hrun eq_refl _ Hrc) as [pa [qc [qp [Hq Hi]]]].
-        simpl in Hq. rewrite Hab, Emix in Hq.
+        simpl in Hq. rewrite Hab in Hq.
         assert (Htv0 : typename_values S (x_related (snd r)) t0 = [t0]).
         { unfold typename_values. rewrite Hrel, map_map. simpl. rewrite map_id.
           assert (Hnone : find (fun n => match lookup_type S n with Some d => is_abstract d | None => false end) ms = None).
@@ -436,12 +511,12 @@ Section LevelS.
           rewrite Hnone. reflexivity. }
         rewrite Htv0 in Hq.
         pose proof Hq as Hq'. rewrite Ef in Hq'.
-        destruct (variant_class_facts _ _ _ _ _ _ _ _ _ _ _ _ Hq' Hns) as [fields0 [pfl0 [extra0 [_ [_ [Eqc Hlit]]]]]].
-        assert (Hcin : In {| c_name := sc +++ t0; c_bases := ["BaseModel"]; c_fields := pfl0 |} exc)
+        destruct (variant_class_facts _ _ _ _ _ _ _ _ _ _ _ _ _ Hq' Hns) as [fields0 [pfl0 [extra0 [_ [_ [Eqc Hlit]]]]]].
+        assert (Hcin : In {| c_name := sc +++ t0; c_bases := "BaseModel" :: fn_mixins f; c_fields := pfl0 |} exc)
           by (apply Hi; rewrite Eqc; left; reflexivity).
         destruct (Htab _ Hcin) as [Hlk Hnbm].
         destruct (mro (sc +++ t0)) as [fs|] eqn:Emro; [| discriminate Hpred].
-        pose proof (mro_det _ fs Hlk Hnbm eq_refl Emro) as Efs. simpl in Efs. subst fs.
+        pose proof (mro_det _ _ fs Hlk Hnbm eq_refl Hharm Emro) as Efs. simpl in Efs. subst fs.
         unfold typename_literal in Hpred.
         destruct (find (fun f0 => String.eqb (p_name f0) "typename__") (last_wins pfl0)) as [f'|] eqn:Ef';
           [| discriminate Hpred].
@@ -457,33 +532,36 @@ Section LevelS.
         rewrite Hnames in Hokt. unfold variant in Hokt. rewrite (proj2 (mem_In t0 ms) Ht0) in Hokt.
         unfold strict_sub in Hss. rewrite El in Hss. rewrite forallb_forall in Hss. specialize (Hss t0 Ht0).
         assert (He : ev (fun fc => obj_lconf fc S frs t0 sub kv')).
-        { eapply (W_class pa (sc +++ t0) t0 sub true); eauto.
-          eapply table_ok_incl; eauto. }
+        { edestruct (W_class pa (sc +++ t0) t0 sub true (fn_mixins f) [t0]) as [rt2 [Hin2 He2]];
+            [exact Hharm | exact Hq | discriminate | | exact Hss | left; reflexivity | intros _; exact Hht
+             | eapply table_ok_incl; eauto | exact Hwc |].
+          - intros rt2 [E | []]. subst rt2. left. exact Hokt.
+          - destruct Hin2 as [E | []]. subst rt2. exact He2. }
         apply ev_shift in He. destruct He as [a Ha]. exists a. intros [|k] Hk; [specialize (Ha 0 Hk); discriminate|].
         specialize (Ha _ Hk). cbn [conf_val_gen]. rewrite El. apply existsb_exists. exists t0.
         split; [unfold abs_candidates; rewrite El; cbn [app]; rewrite Hposs; exact Ht0|].
         unfold sub_scopes. simpl. rewrite Esub. simpl. rewrite andb_false_r. exact Ha.
   Qed.
 
-  Definition field_facts_rev (tn : string) (f : fnode) (pf : pfield) : Prop :=
+  Definition field_facts_rev (tvs : list string) (tn : string) (f : fnode) (pf : pfield) : Prop :=
     field_key_of pf = field_key f /\ p_name pf = py_field_name C (field_key f) /\
     (p_default_none pf = true -> fn_cond f = true) /\
     (forall s, p_alias pf = Some s -> String.eqb (p_name pf) (field_key f) = false) /\
-    (forall v, W (p_ann pf) v = true -> value_lconf tn f v).
+    (forall v, W (p_ann pf) v = true -> value_lconf tvs tn f v).
 
-  Lemma level_facts_rev cn tn tv nested at_ fns pub pfl extra pub' :
+  Lemma level_facts_rev cn rt tn tv tvs nested at_ fns pub pfl extra pub' :
     fields_run (parse_type_def fuel' C S frs) C S frs fuel' cn tn tv at_ fns pub pfl extra pub' false ->
-    forallb (field_ok ok g true S at_ tn tn) fns = true ->
+    forallb (field_ok ok g true S mx at_ rt tn) fns = true ->
     forallb (fun f => field_strict C S nested tn f && sub_strict tn f) fns = true ->
-    tv = (if nested then Some [tn] else None) -> table_ok cs extra ->
-    Forall2 (field_facts_rev tn) fns pfl.
+    tv = (if nested then Some tvs else None) -> tvs <> [] -> table_ok cs extra ->
+    Forall2 (field_facts_rev tvs rt) fns pfl.
   Proof.
-    intros Hrun Hok Hst Htv Htab.
+    intros Hrun Hok Hst Htv Htvs Htab.
     eapply fields_run_Forall; [exact Hrun|].
     intros f pf ctx exc pub0 pub1 Hin Hpf Hsub Hincl.
     rewrite forallb_forall in Hok, Hst. specialize (Hok f Hin). specialize (Hst f Hin).
     apply andb_true_iff in Hst as [Hst Hss].
-    assert (Hval : forall v, W (p_ann pf) v = true -> value_lconf tn f v).
+    assert (Hval : forall v, W (p_ann pf) v = true -> value_lconf tvs rt f v).
     { intros v Hv. eapply field_value_rev; eauto. eapply table_ok_incl; eauto. }
     destruct (field_pf_inv _ _ _ _ _ _ _ _ _ _ _ Hpf) as [t [a0 [il [Ht [Ha Hpf']]]]].
     split; [subst pf; apply mk_pfield_key|]. split; [subst pf; reflexivity|].
@@ -501,15 +579,17 @@ Proof.
 Qed.
 
 (* one class, converse direction *)
-Lemma level_strict C S frs tn Wa Wc kv fns pfl :
-  Forall2 (field_facts_rev C S frs (fun a j => Wa a j && Wc a j) tn) fns pfl ->
+Lemma level_strict C S frs tvs tn Wa Wc kv fns pfl :
+  Forall2 (field_facts_rev C S frs (fun a j => Wa a j && Wc a j) tvs tn) fns pfl ->
+  (forall f s, In f fns -> fn_name f = "__typename" -> jlookup (field_key f) kv = Some (JStr s) ->
+               In s tvs -> s = tn) ->
   keys_ok C (map field_key fns) = true ->
   NoDup (map (fun f => py_field_name C (field_key f)) fns) ->
   class_accepts Wa (Some pfl) (JObj kv) = true -> class_covers Wc (Some pfl) (JObj kv) = true ->
   (forall p, In p kv -> In (fst p) (map field_key fns)) /\
   (forall f, In f fns -> ev (fun fc => key_spec (lconf fc S frs) S tn kv f)).
 Proof.
-  intros H Hkeys Hnn Ha Hc.
+  intros H Hty Hkeys Hnn Ha Hc.
   assert (Hnk : NoDup (map field_key fns)) by (eapply keys_ok_nodup; eauto).
   assert (Ek : map field_key_of pfl = map field_key fns).
   { eapply Forall2_map_eq; [exact H|]. intros x y [E _]. exact E. }
@@ -532,8 +612,9 @@ Proof.
       rewrite <- Hk in Hc. rewrite find_key_nodup in Hc; [exact Hc | rewrite Ek; exact Hnk | exact Hpf]. }
     assert (Hw : Wa (p_ann pf) v && Wc (p_ann pf) v = true) by (rewrite Ha, Hcv; reflexivity).
     apply Hv in Hw. unfold value_lconf in Hw.
-    destruct (String.eqb (fn_name f) "__typename").
-    + subst v. apply ev_const. apply String.eqb_refl.
+    destruct (String.eqb (fn_name f) "__typename") eqn:Etn.
+    + destruct Hw as [s [Es Hs]]. subst v. apply ev_const.
+      rewrite (Hty f s Hf (proj1 (String.eqb_eq _ _) Etn) Ev Hs). apply String.eqb_refl.
     + destruct Hw as [ft [Hft He]]. rewrite Hft. exact He.
   - apply ev_const. apply Hd.
     assert (Hal : match p_alias pf with Some _ => jlookup (p_name pf) kv | None => None end = None).
@@ -551,20 +632,20 @@ Qed.
 Lemma class_accepts_none rec j : class_accepts rec None j = false.
 Proof. destruct j; reflexivity. Qed.
 
-Lemma mro_one cs n c :
-  lookup_class cs n = Some c -> c_bases c = ["BaseModel"] -> n <> "BaseModel" -> mro_fields 1 cs n = None.
+Lemma mro_one cs n c eb :
+  lookup_class cs n = Some c -> c_bases c = "BaseModel" :: eb -> n <> "BaseModel" -> mro_fields 1 cs n = None.
 Proof.
-  intros Hl Hb Hn. cbn [mro_fields]. rewrite (eqb_neq_false _ _ Hn), Hl, Hb. reflexivity.
+  intros Hl Hb Hn. cbn [mro_fields]. rewrite (eqb_neq_false _ _ Hn), Hl, Hb. cbn [fold_left].
+  generalize eb. induction eb0 as [|b l IH]; [reflexivity | exact IH].
 Qed.
 
-Lemma mro_some_simple cs n c j fs :
-  lookup_class cs n = Some c -> n <> "BaseModel" -> c_bases c = ["BaseModel"] ->
+Lemma mro_some_harmless cs n c eb j fs :
+  lookup_class cs n = Some c -> n <> "BaseModel" -> c_bases c = "BaseModel" :: eb -> harmless cs eb ->
   mro_fields j cs n = Some fs -> fs = c_fields c.
 Proof.
-  intros Hl Hn Hb H. destruct j as [|j]; [discriminate H|]. cbn [mro_fields] in H.
-  rewrite (eqb_neq_false _ _ Hn), Hl, Hb in H. cbn [fold_left] in H.
-  destruct j as [|j]; [discriminate H|]. simpl in H. unfold mro_merge in H. simpl in H.
-  rewrite app_nil_r in H. inversion H. reflexivity.
+  intros Hl Hn Hb Hh H. destruct j as [|[|j]]; [discriminate H | |].
+  - rewrite (mro_one cs n c eb Hl Hb Hn) in H. discriminate H.
+  - rewrite (mro_harmless cs n c j eb Hl Hb Hn Hh) in H. inversion H. reflexivity.
 Qed.
 
 Lemma acc_cov_union cs enums n1 alts j :
@@ -583,25 +664,60 @@ Proof.
   rewrite Ha, Hc. reflexivity.
 Qed.
 
-Theorem obj_strict C S frs : forall fuel g gs nested pub cn tn sels at_ tv out pub' cs kv n,
-  parse_type_def fuel C S frs pub cn tn sels at_ [] tv = Ok (out, pub', false) ->
-  sels_ok g true C S frs at_ tn tn sels = true -> sels_strict gs C S frs nested tn sels = true ->
+Lemma flatten_root_det S frs rt1 rt2 r sels g1 g2 a b :
+  flatten g1 S frs rt1 r sels = Some a -> flatten g2 S frs rt2 r sels = Some b -> a = b.
+Proof.
+  intros H1 H2.
+  destruct (flatten_both_ex S frs rt1 _ _ _ _ H1 (max g1 g2) (Nat.le_max_l _ _)) as [R1 _].
+  destruct (flatten_both_ex S frs rt2 _ _ _ _ H2 (max g1 g2) (Nat.le_max_r _ _)) as [R2 _].
+  rewrite R1 in R2. inversion R2. reflexivity.
+Qed.
+
+(* the runtime type a validated object is checked against: the value under __typename if the class's
+   literal lists it, else the first listed name *)
+Definition pick_rt (tvs : list string) (r : string) (kv : list (string * json)) : string :=
+  match jlookup "__typename" kv with
+  | Some (JStr s) => if mem s tvs then s else hd r tvs
+  | _ => hd r tvs
+  end.
+
+Lemma pick_rt_In tvs r kv : tvs <> [] -> In (pick_rt tvs r kv) tvs.
+Proof.
+  intro H. assert (Hh : In (hd r tvs) tvs) by (destruct tvs; [congruence | left; reflexivity]).
+  unfold pick_rt. destruct (jlookup "__typename" kv) as [[| | | |s| |]|]; try exact Hh.
+  destruct (mem s tvs) eqn:E; [apply mem_In, E | exact Hh].
+Qed.
+
+(* one generated class whose typename literal lists tvs (tvs = [r] except for the base class at an
+   interface position): the validated object is lax-conformant for one runtime type of tvs *)
+Theorem obj_strict_gen C S frs mx : forall fuel gs nested pub cn r sels at_ eb tv tvs out pub' cs kv n,
+  parse_type_def fuel C S frs pub cn r sels at_ eb tv = Ok (out, pub', false) ->
+  tvs <> [] ->
+  (forall rt, In rt tvs -> exists g, sels_ok g true C S frs mx at_ rt r sels = true) ->
+  sels_strict gs C S frs mx nested r sels = true ->
+  (tvs = [r] \/ (at_ = true /\ exists gu, una_ok gu S frs r sels = true)) ->
   (at_ = true -> has_typename sels = true) ->
-  tv = (if nested then Some [tn] else None) -> table_ok cs out ->
+  tv = (if nested then Some tvs else None) -> table_ok cs out ->
+  mx_ok cs mx = true -> harmless cs eb ->
   accepts n cs (schema_enums S) (AClass cn) (JObj kv) = true ->
   covers n cs (AClass cn) (JObj kv) = true ->
-  ev (fun fc => obj_lconf fc S frs tn sels kv).
+  exists rt, In rt tvs /\ ev (fun fc => obj_lconf fc S frs rt sels kv).
 Proof.
-  induction fuel as [|fuel IH]; intros g gs nested pub cn tn sels at_ tv out pub' cs kv n Hp Hok Hst Hat Htv Htab Hacc Hcov;
+  induction fuel as [|fuel IH];
+    intros gs nested pub cn r sels at_ eb tv tvs out pub' cs kv n Hp Hne Hoks Hst Hdisj Hat Htv Htab Hmx Heb Hacc Hcov;
     [discriminate Hp|].
-  destruct (level_inv _ _ _ _ _ _ _ _ _ _ _ _ _ _ _ Hp Hok Hat) as [f2 [g' [fns [pfl [extra [Ef [Eg [Hfl [Hrun Hout]]]]]]]]].
-  destruct (sels_ok_inv _ _ _ _ _ _ _ _ _ Hok) as [g'' [fns' [Eg' [Hfl' [Hkeys [Hnames Hfields]]]]]].
+  set (rt := pick_rt tvs r kv).
+  assert (Hrt : In rt tvs) by (apply pick_rt_In, Hne).
+  exists rt. split; [exact Hrt|].
+  destruct (Hoks rt Hrt) as [g Hok].
+  destruct (level_inv _ _ _ _ _ _ _ _ _ _ _ _ _ _ _ _ _ Hp Hok Hat) as [f2 [g' [fns [pfl [extra [Ef [Eg [Hfl [Hrun Hout]]]]]]]]].
+  destruct (sels_ok_inv _ _ _ _ _ _ _ _ _ _ Hok) as [g'' [fns' [Eg' [Hfl' [Hkeys [Hnames Hfields]]]]]].
   rewrite Eg in Eg'. inversion Eg'; subst g''. clear Eg'. specialize (Hnames eq_refl).
   rewrite Hfl in Hfl'. inversion Hfl'; subst fns'. clear Hfl'.
   destruct gs as [|gs']; [discriminate Hst|]. cbn [sels_strict] in Hst.
-  destruct (flatten gs' S frs tn tn sels) as [fns2|] eqn:Hfl2; [| discriminate Hst].
-  rewrite (flatten_det _ _ _ _ _ _ _ _ _ Hfl2 Hfl) in Hst. clear Hfl2 fns2.
-  assert (Hc0 : In {| c_name := cn; c_bases := ["BaseModel"]; c_fields := pfl |} out)
+  destruct (flatten gs' S frs r r sels) as [fns2|] eqn:Hfl2; [| discriminate Hst].
+  rewrite (flatten_root_det _ _ _ _ _ _ _ _ _ _ Hfl2 Hfl) in Hst. clear Hfl2 fns2.
+  assert (Hc0 : In {| c_name := cn; c_bases := "BaseModel" :: eb; c_fields := pfl |} out)
     by (rewrite Hout; left; reflexivity).
   destruct (Htab _ Hc0) as [Hl Hnb]. simpl in Hl, Hnb.
   destruct n as [|n']; [discriminate Hacc|].
@@ -609,15 +725,18 @@ Proof.
   change (class_covers (covers n' cs) (mro_fields n' cs cn) (JObj kv) = true) in Hcov.
   destruct n' as [|[|n2]].
   - simpl in Hacc. discriminate Hacc.
-  - rewrite (mro_one cs cn _ Hl eq_refl Hnb), class_accepts_none in Hacc. discriminate Hacc.
-  - rewrite (mro_simple cs cn _ n2 Hl eq_refl Hnb) in Hacc, Hcov. simpl c_fields in Hacc, Hcov.
+  - rewrite (mro_one cs cn _ eb Hl eq_refl Hnb), class_accepts_none in Hacc. discriminate Hacc.
+  - rewrite (mro_harmless cs cn _ n2 eb Hl eq_refl Hnb Heb) in Hacc, Hcov. simpl c_fields in Hacc, Hcov.
     set (n1 := Datatypes.S n2) in *.
     set (Wa := accepts (Datatypes.S n1) cs (schema_enums S)) in *.
     set (Wc := covers (Datatypes.S n1) cs) in *.
-    assert (HF : Forall2 (field_facts_rev C S frs (fun a j => Wa a j && Wc a j) tn) fns pfl).
+    assert (HF : Forall2 (field_facts_rev C S frs (fun a j => Wa a j && Wc a j) tvs rt) fns pfl).
     { eapply level_facts_rev with (W := fun a j => Wa a j && Wc a j) (mro := mro_fields n1 cs)
-                                  (ok := sels_ok g' true C S frs) (ok2 := sels_ok gs' true C S frs) (strict := sels_strict gs' C S frs true)
+                                  (ok := sels_ok g' true C S frs mx) (ok2 := sels_ok gs' true C S frs mx)
+                                  (strict := sels_strict gs' C S frs mx true) (una := una_ok gs' S frs)
+                                  (mx := mx) (harm := harmless cs)
                                   (fuel' := fuel) (g := g') (cs := cs); try eassumption.
+      - intros eb0. apply mx_ok_harmless, Hmx.
       - intros a j. unfold Wa, Wc. simpl. destruct (is_null j); reflexivity.
       - intros a j. unfold Wa, Wc. simpl. destruct j; try reflexivity. apply forallb_andb.
       - intros m j Hnn H. apply andb_true_iff in H as [H _]. unfold Wa in H. cbn [accepts] in H.
@@ -625,19 +744,31 @@ Proof.
       - intros m Hm. unfold Wa. cbn [accepts]. rewrite scalar_rejects_null by exact Hm. reflexivity.
       - intros m vs j Hm H. apply andb_true_iff in H as [H _]. unfold Wa in H. cbn [accepts] in H.
         rewrite (enum_leaf_exact S _ m vs j Hm) in H. exact H.
-      - intros t v H. apply andb_true_iff in H as [H _]. unfold Wa in H. simpl in H.
-        destruct v; try discriminate H. unfold mem in H. simpl in H. rewrite orb_false_r in H.
-        apply String.eqb_eq in H. congruence.
+      - intros vs v H. apply andb_true_iff in H as [H _]. unfold Wa in H. simpl in H.
+        destruct v; try discriminate H. eexists. split; [reflexivity | apply mem_In, H].
       - intros c j H. apply andb_true_iff in H as [H _]. unfold Wa in H. simpl in H.
         destruct j; try discriminate H. eauto.
       - intros alts j H. unfold Wa, Wc in *. apply acc_cov_union, H.
-      - intros c fs Hlc Hnc Hbc Hm. eapply mro_some_simple; eauto.
+      - intros c eb0 fs Hlc Hnc Hbc Hh Hm. eapply mro_some_harmless; eauto.
       - eauto.
-      - intros pb cn2 tn2 sels2 at2 out2 pub2 kv2 P1 P2 P3 P3' P4 P5. apply andb_true_iff in P5 as [P5 P6].
-        destruct P2 as [P2 | P2]; eapply IH; eauto.
+      - intros pb cn2 r2 sels2 at2 eb2 tvs2 out2 pub2 kv2 P0 P1 Pne P2 P3 Pd P3' P4 P5.
+        apply andb_true_iff in P5 as [P5 P6].
+        eapply (IH gs' true pb cn2 r2 sels2 at2 eb2 (Some tvs2) tvs2); eauto.
+        + intros rt2 Hr2. destruct (P2 rt2 Hr2) as [Q | Q]; eauto.
+        + destruct Pd as [Pd | [Pd1 Pd2]]; [left; exact Pd | right; eauto].
       - eapply table_ok_incl; [exact Htab|]. rewrite Hout. apply incl_tl, incl_refl. }
-    destruct (level_strict C S frs tn Wa Wc kv _ _ HF Hkeys Hnames Hacc Hcov) as [Hkv Hspec].
-    pose proof (ev_forallb (fun fc f => key_spec (lconf fc S frs) S tn kv f) _ Hspec) as [a Ha].
+    assert (Hty : forall f s, In f fns -> fn_name f = "__typename" ->
+                              jlookup (field_key f) kv = Some (JStr s) -> In s tvs -> s = rt).
+    { intros f s Hf Hn Hj Hs. destruct Hdisj as [E | [_ [gu Hu]]].
+      - rewrite E in Hs, Hrt. destruct Hs as [Hs | []]. destruct Hrt as [Hr | []]. congruence.
+      - unfold una_ok in Hu. destruct (flatten gu S frs r r sels) as [fnsu|] eqn:Hflu; [| discriminate Hu].
+        rewrite (flatten_root_det _ _ _ _ _ _ _ _ _ _ Hflu Hfl) in Hu. rewrite forallb_forall in Hu.
+        specialize (Hu f Hf). rewrite Hn in Hu. simpl in Hu.
+        assert (Ek : field_key f = "__typename").
+        { unfold field_key. destruct (fn_alias f); [discriminate Hu | exact Hn]. }
+        rewrite Ek in Hj. unfold rt, pick_rt. rewrite Hj, (proj2 (mem_In s tvs) Hs). reflexivity. }
+    destruct (level_strict C S frs tvs rt Wa Wc kv _ _ HF Hty Hkeys Hnames Hacc Hcov) as [Hkv Hspec].
+    pose proof (ev_forallb (fun fc f => key_spec (lconf fc S frs) S rt kv f) _ Hspec) as [a Ha].
     exists (max a g'). intros fc Hk.
     unfold obj_lconf. rewrite (collect_scopes_flat_ex _ _ _ _ _ _ _ _ Hfl) by lia.
     rewrite conf_obj_flat by (eapply keys_ok_nodup; eauto).
@@ -646,45 +777,62 @@ Proof.
     + apply Ha. lia.
 Qed.
 
+Theorem obj_strict C S frs mx : forall fuel g gs nested pub cn tn sels at_ eb tv out pub' cs kv n,
+  parse_type_def fuel C S frs pub cn tn sels at_ eb tv = Ok (out, pub', false) ->
+  sels_ok g true C S frs mx at_ tn tn sels = true -> sels_strict gs C S frs mx nested tn sels = true ->
+  (at_ = true -> has_typename sels = true) ->
+  tv = (if nested then Some [tn] else None) -> table_ok cs out ->
+  mx_ok cs mx = true -> harmless cs eb ->
+  accepts n cs (schema_enums S) (AClass cn) (JObj kv) = true ->
+  covers n cs (AClass cn) (JObj kv) = true ->
+  ev (fun fc => obj_lconf fc S frs tn sels kv).
+Proof.
+  intros fuel g gs nested pub cn tn sels at_ eb tv out pub' cs kv n Hp Hok Hst Hat Htv Htab Hmx Heb Hacc Hcov.
+  destruct (obj_strict_gen C S frs mx fuel gs nested pub cn tn sels at_ eb tv [tn] out pub' cs kv n)
+    as [rt [[E | []] He]]; auto; [discriminate | | subst rt; exact He].
+  intros rt [E | []]. subst rt. eauto.
+Qed.
+
 (* ------------------------------------------------------------------------------------------- *)
 (* Operation level                                                                              *)
-Theorem op_strict C S frs fuel kind name sels root own pub' cls g gs j n :
+Theorem op_strict C S frs fuel kind name mixins sels root own pub' cls g gs mx j n :
   root_type_name S kind = Ok root ->
-  op_parse fuel C S frs kind name [] sels = Ok (own, pub', false) ->
-  all_classes fuel C S frs (DOp kind name [] sels) = Ok cls ->
-  op_ok g true C S frs root sels = true -> sels_strict gs C S frs false root sels = true ->
-  no_basemodel own = true ->
+  op_parse fuel C S frs kind name mixins sels = Ok (own, pub', false) ->
+  all_classes fuel C S frs (DOp kind name mixins sels) = Ok cls ->
+  op_ok g true C S frs mx mixins root sels = true -> sels_strict gs C S frs mx false root sels = true ->
+  mx_ok cls mx = true -> no_basemodel own = true ->
   accepts n cls (schema_enums S) (AClass (pascal_s name)) j = true ->
   covers n cls (AClass (pascal_s name)) j = true ->
   ev (fun fc => conf_op_gen lax_leaf false true fc S frs root sels j).
 Proof.
-  intros Hroot Hop Hall Hok Hst Hnb Hacc Hcov.
-  pose proof (op_table _ _ _ _ _ _ _ _ _ _ Hop Hall Hnb) as Htab.
-  unfold op_ok in Hok. apply andb_true_iff in Hok as [Hobj Hsels].
+  intros Hroot Hop Hall Hok Hst Hmx Hnb Hacc Hcov.
+  pose proof (op_table _ _ _ _ _ _ _ _ _ _ _ Hop Hall Hnb) as Htab.
+  unfold op_ok in Hok. apply andb_true_iff in Hok as [Hobj Hsels]. apply andb_true_iff in Hobj as [Hobj Hmix].
+  pose proof (mx_ok_harmless _ _ _ Hmx Hmix) as Hharm.
   assert (Hj : exists kv, j = JObj kv).
   { destruct n as [|n']; [discriminate Hacc|]. simpl in Hacc. destruct j; try discriminate Hacc. eauto. }
   destruct Hj as [kv Ej]. subst j.
   unfold op_parse in Hop. rewrite Hroot in Hop. simpl in Hop.
   assert (He : ev (fun fc => obj_lconf fc S frs root sels kv))
-    by (eapply (obj_strict C S frs fuel g gs false [] (pascal_s name) root sels false); eauto; discriminate).
+    by (eapply (obj_strict C S frs mx fuel g gs false [] (pascal_s name) root sels false mixins); eauto; discriminate).
   destruct He as [a Ha]. exists (Datatypes.S (Datatypes.S a)). intros [|[|k]] Hk; try lia.
   unfold conf_op_gen. cbn [conf_val_gen]. unfold is_object in Hobj.
   destruct (lookup_type S root) as [[]|]; try discriminate Hobj. apply Ha. lia.
 Qed.
 
-Corollary op_strict_rejects C S frs fuel kind name sels root own pub' cls g gs j n :
+Corollary op_strict_rejects C S frs fuel kind name mixins sels root own pub' cls g gs mx j n :
   root_type_name S kind = Ok root ->
-  op_parse fuel C S frs kind name [] sels = Ok (own, pub', false) ->
-  all_classes fuel C S frs (DOp kind name [] sels) = Ok cls ->
-  op_ok g true C S frs root sels = true -> sels_strict gs C S frs false root sels = true ->
-  no_basemodel own = true ->
+  op_parse fuel C S frs kind name mixins sels = Ok (own, pub', false) ->
+  all_classes fuel C S frs (DOp kind name mixins sels) = Ok cls ->
+  op_ok g true C S frs mx mixins root sels = true -> sels_strict gs C S frs mx false root sels = true ->
+  mx_ok cls mx = true -> no_basemodel own = true ->
   (forall fc, conf_op_gen lax_leaf false true fc S frs root sels j = false) ->
   covers n cls (AClass (pascal_s name)) j = true ->
   accepts n cls (schema_enums S) (AClass (pascal_s name)) j = false.
 Proof.
-  intros Hroot Hop Hall Hok Hst Hnb Hnc Hcov.
+  intros Hroot Hop Hall Hok Hst Hmx Hnb Hnc Hcov.
   destruct (accepts n cls (schema_enums S) (AClass (pascal_s name)) j) eqn:E; [| reflexivity].
-  destruct (op_strict _ _ _ _ _ _ _ _ _ _ _ _ _ _ _ Hroot Hop Hall Hok Hst Hnb E Hcov) as [a Ha].
+  destruct (op_strict _ _ _ _ _ _ _ _ _ _ _ _ _ _ _ _ _ Hroot Hop Hall Hok Hst Hmx Hnb E Hcov) as [a Ha].
   specialize (Ha a (le_n a)). rewrite Hnc in Ha. discriminate Ha.
 Qed.
 
